@@ -37,7 +37,8 @@ InFn == open # <<>> /\ open[1].k = "fn"
 FnClosed == 0 \in DOMAIN struct
 AddFn == n = 0 /\ \E sc \in Scoped : prog' = <<Line("fn", sc, FALSE, 0)>> /\ open' = <<[k |-> "fn", line |-> 0, els |-> 0]>> /\ UNCHANGED struct
 AddSimple == n > 0 /\ Room /\ \E cmd \in {"emit", "dec"} : prog' = Append(prog, Line(cmd, "T", FALSE, 0)) /\ UNCHANGED <<open, struct>>
-AddCall == n > 0 /\ Room /\ \E o \in (IF InFn THEN {FALSE} ELSE BOOLEAN), g \in (IF InFn THEN {6} ELSE {5}) :
+\* a call with an output variable passes 5 or 8: two such calls must leave two different values in r
+AddCall == n > 0 /\ Room /\ \E o \in (IF InFn THEN {FALSE} ELSE BOOLEAN) : \E g \in (IF InFn THEN {6} ELSE IF o THEN {5, 8} ELSE {5}) :
              prog' = Append(prog, Line("call", "T", o, g)) /\ UNCHANGED <<open, struct>>
 AddRet == InFn /\ Room /\ \E val \in BOOLEAN : prog' = Append(prog, Line("ret", val, FALSE, 0)) /\ UNCHANGED <<open, struct>>
 AddIf == n > 0 /\ n + Len(open) + 1 < MaxLines /\ Len(open) < MaxDepth
@@ -75,13 +76,13 @@ RunBlock(lo, hi, st) ==
     CASE ln.cmd = "emit" -> RunBlock(lo+1, hi, Tick([st EXCEPT !.trace = Append(@, EmitRec(lo, st))]))
       [] ln.cmd = "dec"  -> RunBlock(lo+1, hi, Tick([st EXCEPT !.v.c = IF @ > 0 THEN @ - 1 ELSE 0]))
       [] ln.cmd = "fn"   -> RunBlock(struct[lo].end + 1, hi, Tick(st))
-      [] ln.cmd = "ret"  -> Tick([st EXCEPT !.sig = "ret", !.rv = IF ln.a THEN 7 ELSE 0, !.hasrv = ln.a])
+      [] ln.cmd = "ret"  -> Tick([st EXCEPT !.sig = "ret", !.rv = IF ln.a THEN st.v.a1 ELSE 0, !.hasrv = ln.a])    \* return ${1}: the value differs between calls
       [] ln.cmd = "call" -> RunBlock(lo+1, hi, Call(st, ln.out, ln.arg))
       [] ln.cmd = "if" ->
            LET s == struct[lo]
                bodyEnd == IF s.els # 0 THEN s.els ELSE s.end
                s0 == IF ln.a = "call" THEN Call(st, FALSE, ln.arg) ELSE st
-               t == IF ln.a = "call" THEN s0.hasrv ELSE Truth(ln.a, st.v.c)       \* a call as condition: truthy iff it returned a value (7)
+               t == IF ln.a = "call" THEN s0.hasrv ELSE Truth(ln.a, st.v.c)       \* a call as condition: truthy iff it returned a value (its argument)
                s1 == IF t THEN RunBlock(lo+1, bodyEnd, Tick(s0))
                      ELSE IF s.els # 0 THEN RunBlock(s.els+1, s.end, Tick(s0)) ELSE Tick(s0)
            IN RunBlock(s.end + 1, hi, s1)
@@ -151,7 +152,7 @@ Step ==
           [] op = "ret" ->
                IF fnStack # <<>> /\ fnStack[Len(fnStack)].start < pc /\ fnStack[Len(fnStack)].end > pc
                THEN LET f == fnStack[Len(fnStack)]
-                        rv == IF ln.a THEN 7 ELSE 0
+                        rv == IF ln.a THEN v.a1 ELSE 0
                         inner == IF f.out THEN [v EXCEPT !.r = rv] ELSE v
                         restored == IF IsScoped THEN (IF f.out /\ inner.r # 0 THEN [f.saved EXCEPT !.r = inner.r] ELSE f.saved) ELSE inner
                     IN /\ v' = restored /\ pc' = f.call + 1 /\ fnStack' = SubSeq(fnStack, 1, Len(fnStack)-1)
